@@ -137,6 +137,25 @@ let () =
          String.trim (Buffer.contents out))
     | _ -> failwith "cur")
 
+(* ---- cursor_range / cursor_subrange: CursorRange.run_crange_at (proved in CursorRangeProofs.v) ---- *)
+let () =
+  (* crange <path> <k> <r|s> [pos [count]] -> n=<count> E@<addr>... c=<final cursor> *)
+  register "crange" (function p :: k :: mode :: rest ->
+      let m = the_msg () in
+      let cl = clevel_of (the_slevel ()) m.m_hdr_size in
+      let md = (match mode, rest with
+        | "r", _ -> CRAll
+        | _, [pos] -> CRFrom (z_of_string pos)
+        | _, [pos; cnt] -> CRFromCount (z_of_string pos, z_of_string cnt)
+        | _ -> failwith "crange: mode") in
+      (match run_crange_at !cur_be !cur_buf m cl !cur_base (parse_path p) (nat_of_int (int_of_string k)) md with
+       | COk (addrs, c) ->
+         String.trim (Printf.sprintf "n=%d %sc=%s" (List.length addrs)
+                        (String.concat "" (List.map (fun a -> "E@" ^ rel a ^ " ") addrs)) (rel c))
+       | CAssert -> "ASSERT"
+       | COob -> "OOB")
+    | _ -> failwith "crange")
+
 (* ---- C06: size_bytes_checked on the current buffer (message view at offset 0, n = len) ---- *)
 let () =
   register "sbc" (fun args ->
